@@ -446,7 +446,7 @@ def _run(pid, P, tier, seed, scratch, t0):
         if rel not in meta['notes']['wrapped']:
             continue
         for f in frs:
-            if f['qual'] not in ext_body and not f['qual'].startswith('test_') and f.get('in_wrap', True):
+            if f['qual'] not in ext_body and not f['qual'].startswith('test_') and f.get('in_wrap', True) and f.get('has_body', True):
                 verified_fns.append(f['qual'])
     ncfg = len(runs)
     obligations = []
